@@ -5,11 +5,17 @@
 //   obj rosen <n>                            generalised Rosenbrock
 //   box <l n> <u n>                          add a BoxConstraintHandler
 //   opt sd <lr> <mom> | adam <eta> <b1> <b2> <eps> | rprop <inc> <dec> <max> <min> <fr> <bt> <ov> <initDelta>
-//       bfgs <ls> | cg <ls> | lbfgs <ls> <hist> | trn            ls: 0 dlinmin 1 wolfecubic 2 backtracking
-//   init <x0 n>
+//       bfgs <ls> [minI maxI] | cg <ls> [minI maxI] | lbfgs <ls> <hist> [minI maxI] | trn [delta0 minImprovementRatio]
+//       ls: 0 dlinmin 1 wolfecubic 2 backtracking; minI/maxI = LineSearch::minInterval()/maxInterval() (initial bracket of dlinmin)
+//   init <x0 n>                             (a second `init` re-initialises the used instance; its twin becomes a fresh one)
 //   step
 //   ls <type> <t0> <x n> <d n>             one direct line search from x along d (any direction, also ascent / zero)
 //   save text|bin strict|lenient            write the optimizer, read into a fresh instance, continue with it
+//   converged <tol>                         convergence oracle: projected-gradient (KKT) residual of the (box-constrained) problem
+//   boxdir <m> <bdiag> <x n> <g n> <l n> <u n> <S m*n> <Y m*n>
+//                                           one direct call of LBFGS::getBoxConstrainedDirection on an L-BFGS object whose state
+//                                           (point, gradient, history pairs, bdiag) is injected; oracle: finite, feasible, blocked
+//                                           coordinates stay, descent and NON-ZERO whenever the projected gradient is non-zero
 //
 // numbers are IEEE-754 bit patterns "x<16 hex digits>".
 // The harness keeps an uninterrupted twin of the optimizer (never saved/restored) and contains the
@@ -29,6 +35,7 @@
 #include <boost/archive/polymorphic_binary_oarchive.hpp>
 #include "common.hpp"
 #include <cfenv>
+#include <exception>
 #include <cstring>
 #include <memory>
 
@@ -60,7 +67,7 @@ static bool sameVec(RealVector const& a, RealVector const& b){
 // objective family with a fixed, plain operation order (mirrored by the Lean driver)
 struct Obj: public SingleObjectiveFunction{
 	int kind; std::size_t n; std::vector<double> A, b;
-	BoxConstraintHandler<RealVector> handler; bool boxed;
+	BoxConstraintHandler<RealVector> handler; bool boxed; RealVector lo, hi;
 	Obj(): kind(0), n(0), boxed(false){
 		m_features |= HAS_VALUE; m_features |= HAS_FIRST_DERIVATIVE; m_features |= HAS_SECOND_DERIVATIVE;
 		m_constraintHandler = nullptr;
@@ -68,7 +75,14 @@ struct Obj: public SingleObjectiveFunction{
 	std::string name() const{ return "verif-objective"; }
 	std::size_t numberOfVariables() const{ return n; }
 	void setBox(RealVector const& l, RealVector const& u){
-		handler.setBounds(l, u); announceConstraintHandler(&handler); boxed = true;
+		handler.setBounds(l, u); announceConstraintHandler(&handler); boxed = true; lo = l; hi = u;
+	}
+	// independent feasibility oracle: plain comparisons with the bounds handed to `box` (slack 2e-13, i.e. that of
+	// BoxConstraintHandler::isFeasible plus rounding), not the handler's own isFeasible
+	bool inBox(RealVector const& x) const{
+		if(!boxed) return true;
+		for(std::size_t i = 0; i != n; ++i) if(!(x(i) >= lo(i) - 2e-13 && x(i) <= hi(i) + 2e-13)) return false;
+		return true;
 	}
 	double both(RealVector const& x, RealVector* g) const{
 		if(g){ g->resize(n); for(std::size_t i = 0; i != n; ++i) (*g)(i) = 0.0; }
@@ -122,6 +136,9 @@ struct Config{
 
 // probes exposing protected state of the line-search optimizers
 template<class B> struct LSProbe: public B{
+	void injectPoint(RealVector const& x, RealVector const& g){
+		this->m_dimension = x.size(); this->m_best.point = x; this->m_best.value = 0; this->m_derivative = g;
+	}
 	std::string base() const{
 		// flat machine-readable state: dim, point, value, g, d, lastPoint, lastDerivative, lastValue, initialStepLength, model...
 		std::ostringstream os;
@@ -188,6 +205,11 @@ static LineSearchType lsType(double v){
 	return v == 0 ? LineSearchType::Dlinmin : (v == 1 ? LineSearchType::WolfeCubic : LineSearchType::Backtracking);
 }
 
+// line-search configuration: type + (optional) initial bracket [minInterval, maxInterval] of dlinmin
+static void configLS(LineSearch<RealVector>& ls, Config const& c, std::size_t at){
+	ls.lineSearchType() = lsType(c.p[0]);
+	if(c.p.size() >= at + 2){ ls.minInterval() = c.p[at]; ls.maxInterval() = c.p[at+1]; }
+}
 // construct + configure (configuration = what a user sets before init and what is NOT state)
 static Wrap* make(Config const& c, bool poison, bool configure){
 	if(c.kind == "sd"){
@@ -207,11 +229,11 @@ static Wrap* make(Config const& c, bool poison, bool configure){
 		w->p->setUseFreezing(c.p[4] != 0); w->p->setUseBacktracking(c.p[5] != 0); w->p->setUseOldValue(c.p[6] != 0);
 		return w;
 	}
-	if(c.kind == "bfgs"){ WrapBFGS* w = new WrapBFGS(poison); if(configure) w->p->lineSearch().lineSearchType() = lsType(c.p[0]); return w; }
-	if(c.kind == "cg"){ WrapCG* w = new WrapCG(poison); if(configure) w->p->lineSearch().lineSearchType() = lsType(c.p[0]); return w; }
+	if(c.kind == "bfgs"){ WrapBFGS* w = new WrapBFGS(poison); if(configure) configLS(w->p->lineSearch(), c, 1); return w; }
+	if(c.kind == "cg"){ WrapCG* w = new WrapCG(poison); if(configure) configLS(w->p->lineSearch(), c, 1); return w; }
 	if(c.kind == "lbfgs"){
 		WrapLBFGS* w = new WrapLBFGS(poison);
-		if(configure){ w->p->lineSearch().lineSearchType() = lsType(c.p[0]); w->p->setHistCount((unsigned)c.p[1]); }
+		if(configure){ configLS(w->p->lineSearch(), c, 2); w->p->setHistCount((unsigned)c.p[1]); }
 		return w;
 	}
 	if(c.kind == "trn") return new WrapT<TRNProbe>(poison);
@@ -219,14 +241,43 @@ static Wrap* make(Config const& c, bool poison, bool configure){
 }
 static void doInit(Wrap& w, Config const& c, Obj const& f, RealVector const& x0){
 	if(c.kind == "rprop") static_cast<WrapT<Rprop<RealVector> >&>(w).p->init(f, x0, c.p[7]);
-	else if(c.kind == "trn") static_cast<WrapT<TRNProbe>&>(w).p->TrustRegionNewton::init(f, x0, 0.1);
+	else if(c.kind == "trn"){
+		// configuration axes of TrustRegionNewton: initial trust-region radius (argument of init) and
+		// minImprovementRatio() (reset by init, so it is set after it)
+		TRNProbe* t = static_cast<WrapT<TRNProbe>&>(w).p;
+		t->TrustRegionNewton::init(f, x0, c.p.size() >= 1 ? c.p[0] : 0.1);
+		if(c.p.size() >= 2) t->minImprovementRatio() = c.p[1];
+	}
 	else w.o().init(f, x0);
 }
 static bool isLineSearch(Config const& c){ return c.kind == "bfgs" || c.kind == "cg" || c.kind == "lbfgs"; }
 
+// diagnosis for the known finding F-C10-12 (the dog-leg stage of getBoxConstrainedDirection ignores a bound at distance
+// exactly 0): with the harness' own active set, is there a movable coordinate whose Cauchy point x + p0/(p0'Bp0) sits
+// exactly on a bound?  (p0, blocked, pgzero are outputs)
+static bool cauchyTouchesBound(LSProbe<LBFGS<RealVector> >& o, RealVector const& x, RealVector const& g, RealVector const& l, RealVector const& u,
+		RealVector& p0, std::vector<bool>& blocked, bool& pgzero, RealVector& bi, RealVector& bp){
+	std::size_t n = x.size();
+	p0.resize(n); blocked.assign(n, false); pgzero = true;
+	for(std::size_t k = 0; k != n; ++k){
+		double p = -g(k);
+		blocked[k] = (x(k) - 1e-13 < l(k) && p < 0) || (x(k) + 1e-13 > u(k) && p > 0);
+		p0(k) = blocked[k] ? 0.0 : p;
+		if(p0(k) != 0) pgzero = false;
+	}
+	bi = p0; bp = p0;
+	o.multBInv(bi); o.multB(bp);
+	if(pgzero) return false;
+	RealVector cau = p0 / inner_prod(p0, bp);
+	for(std::size_t k = 0; k != n; ++k)
+		if(!blocked[k] && (x(k) + cau(k) == l(k) || x(k) + cau(k) == u(k))) return true;
+	return false;
+}
+static double g_lastDecrease = 0;   // value decrease of the most recent `step` (for the convergence diagnosis)
+
 int main(){
 	std::unique_ptr<Obj> f(new Obj());
-	Config cfg; std::unique_ptr<Wrap> cur, twin;
+	Config cfg; std::unique_ptr<Wrap> cur, twin; bool inited = false;
 	RealVector x0;
 	std::string line;
 	while(std::getline(std::cin, line)){
@@ -254,7 +305,7 @@ int main(){
 			}else if(t[0] == "opt"){
 				cfg.kind = t.at(1); cfg.p.clear();
 				for(std::size_t k = 2; k < t.size(); ++k) cfg.p.push_back(bits2d(t[k]));
-				cur.reset(make(cfg, false, true)); twin.reset(make(cfg, false, true));
+				cur.reset(make(cfg, false, true)); twin.reset(make(cfg, false, true)); inited = false;
 				out << "ok";
 			}else if(t[0] == "init" || t[0] == "step"){
 				if(!cur) throw std::runtime_error("bad-op");
@@ -265,26 +316,46 @@ int main(){
 					if(t.size() != 1 + f->n) throw std::runtime_error("bad-op");
 					x0.resize(f->n);
 					for(std::size_t k = 0; k != f->n; ++k) x0(k) = bits2d(t[1+k]);
+					// re-initialisation of a USED instance (second `init` of a case): the twin is replaced by a brand-new,
+					// identically configured instance, so every later step compares "re-initialised" with "fresh"
+					// (init must reset all state: step sizes, moments, counters, history, Hessian approximation)
+					if(inited) twin.reset(make(cfg, false, true));
 					doInit(*twin, cfg, *f, x0);
 					std::feclearexcept(FE_ALL_EXCEPT);
 					doInit(*cur, cfg, *f, x0);
+					inited = true;
 					ex = std::fetestexcept(FE_INEXACT) ? 0 : 1;
 				}else{
-					twin->o().step(*f);
+					// (the instance under test first: if it throws, the diagnosis below looks at ITS half-updated state)
+					// both instances are stepped whatever happens, so that they stay in lockstep after an exception
+					std::exception_ptr curErr;
 					std::feclearexcept(FE_ALL_EXCEPT);
-					cur->o().step(*f);
+					try{ cur->o().step(*f); }catch(...){ curErr = std::current_exception(); }
 					ex = std::fetestexcept(FE_INEXACT) ? 0 : 1;
+					try{ twin->o().step(*f); }catch(...){}
+					if(curErr) std::rethrow_exception(curErr);
 				}
 				RealVector const& pt = cur->o().solution().point;
 				double val = cur->o().solution().value;
-				out << "pt=" << showVec(pt) << " val=" << vh::exactDouble(val) << cur->extra(init) << " #ex=" << ex;
+				out << "pt=" << showVec(pt) << " val=" << vh::exactDouble(val) << cur->extra(init);
+				if(!init && f->boxed && cfg.kind == "lbfgs"){
+					// p0, multBInv(p0), multB(p0) of the real code at the new point: inputs of the model of getBoxConstrainedDirection
+					WrapLBFGS* wl = static_cast<WrapLBFGS*>(cur.get());
+					RealVector p0, bi, bp, gg; std::vector<bool> blocked; bool pgzero;
+					f->both(pt, &gg);
+					cauchyTouchesBound(*wl->p, pt, gg, f->lo, f->hi, p0, blocked, pgzero, bi, bp);
+					std::string h = hexVec(p0) + hexVec(bi) + hexVec(bp);
+					out << " bx=" << h.substr(1);
+				}
+				out << " #ex=" << ex;
 				// ---- independent property oracle ----
 				bool finite = std::isfinite(val);
 				for(std::size_t i = 0; i != pt.size(); ++i) finite = finite && std::isfinite(pt(i));
 				if(!finite) out << " !oracle non-finite";
 				double re = f->both(pt, nullptr);
 				if(finite && !sameBits(re, val)) out << " !oracle value-not-f-of-point " << vh::exactDouble(re);
-				if(f->boxed && !f->isFeasible(pt)) out << " !oracle infeasible";
+				if(f->boxed && (!f->isFeasible(pt) || !f->inBox(pt))) out << " !oracle infeasible";
+				if(!init) g_lastDecrease = before - val;
 				if(!init && (isLineSearch(cfg) || cfg.kind == "trn") && finite && !(val <= before))
 					out << " !oracle increased";
 				if(!sameVec(pt, twin->o().solution().point) || !sameBits(val, twin->o().solution().value))
@@ -311,16 +382,80 @@ int main(){
 				if(finite && gtd <= 0 && !(v <= v0)) out << " !oracle ls-increased";
 				if(sameVec(p, p0) && (!sameBits(v, v0) || !sameVec(g, g0))) out << " !oracle ls-unchanged-point-changed-state";
 			}else if(t[0] == "converged"){
-				// numerical convergence oracle (strictly convex quadratics): ||grad f(best)||_inf <= tol * (1 + ||b||_inf)
+				// numerical convergence oracle (strictly convex quadratics): the KKT residual of the (box-constrained) problem,
+				//   r_i = x_i - clamp(x_i - g_i, l_i, u_i)      (= g_i without a box),
+				// which vanishes exactly at the unique minimiser over the box, must satisfy ||r||_inf <= tol * (1 + ||b||_inf)
 				if(!cur) throw std::runtime_error("bad-op");
 				double tol = bits2d(t.at(1));
-				RealVector g; f->both(cur->o().solution().point, &g);
-				double gn = 0, bn = 0;
-				for(std::size_t i = 0; i != g.size(); ++i) gn = std::max(gn, std::fabs(g(i)));
+				RealVector const& x = cur->o().solution().point;
+				RealVector g; f->both(x, &g);
+				double gn = 0, bn = 0; bool outside = false;
+				for(std::size_t i = 0; i != g.size(); ++i){
+					double r = g(i);
+					if(f->boxed){
+						double y = std::min(std::max(x(i) - g(i), f->lo(i)), f->hi(i));
+						r = x(i) - y;
+						if(x(i) < f->lo(i) || x(i) > f->hi(i)) outside = true;
+					}
+					gn = std::max(gn, std::fabs(r));
+				}
 				for(std::size_t i = 0; i != f->b.size(); ++i) bn = std::max(bn, std::fabs(f->b[i]));
 				bool okc = gn <= tol * (1 + bn);
 				out << "conv=" << (okc ? 1 : 0);
-				if(!okc) out << " !oracle not-converged " << gn;
+				// `slack-outside`: the final point lies outside [l,u] by less than the slack of isFeasible (finding F11 family)
+				// diagnosis of a failure: `slack-outside` = the final point lies outside [l,u] by less than the slack of isFeasible
+				// (finding F-C10-13); `still-descending-large-gradient` = the last step still decreased the value and the
+				// projected gradient has norm^2 > 4 (finding F-C10-14: Cauchy step too short by the factor |p0|^2); `frozen` = the
+				// last step did not change the value
+				// `frozen-near-bound` = frozen, and a movable variable is heading for a bound that is closer than 1e-9 (but not
+				// within the 1e-13 of the active-set rule): the step is clipped to that distance and is too short for the line
+				// search to see a decrease (finding F-C10-15)
+				double pg2 = 0; bool nearBound = false;
+				for(std::size_t i = 0; i != g.size(); ++i){
+					bool blk = f->boxed && ((x(i) - 1e-13 < f->lo(i) && g(i) > 0) || (x(i) + 1e-13 > f->hi(i) && g(i) < 0));
+					if(!blk) pg2 += g(i) * g(i);
+					if(f->boxed && !blk && g(i) > 0 && x(i) - f->lo(i) <= 1e-9) nearBound = true;
+					if(f->boxed && !blk && g(i) < 0 && f->hi(i) - x(i) <= 1e-9) nearBound = true;
+				}
+				if(!okc) out << " !oracle not-converged" << (outside ? "-slack-outside " : (g_lastDecrease > 0 ? (pg2 > 4 ? "-still-descending-large-gradient " : "-still-descending ") : (nearBound ? "-frozen-near-bound " : "-frozen "))) << gn;
+			}else if(t[0] == "boxdir"){
+				std::size_t n = f->n;
+				std::size_t m = std::stoul(t.at(1));
+				if(t.size() != 3 + 4*n + 2*m*n) throw std::runtime_error("bad-op");
+				std::size_t at = 2;
+				double bdiag = bits2d(t.at(at++));
+				RealVector x(n), g(n), l(n), u(n);
+				for(std::size_t k = 0; k != n; ++k) x(k) = bits2d(t[at++]);
+				for(std::size_t k = 0; k != n; ++k) g(k) = bits2d(t[at++]);
+				for(std::size_t k = 0; k != n; ++k) l(k) = bits2d(t[at++]);
+				for(std::size_t k = 0; k != n; ++k) u(k) = bits2d(t[at++]);
+				WrapLBFGS w(false);
+				w.p->setHistCount((unsigned)std::max<std::size_t>(m, 1));
+				w.p->injectPoint(x, g);
+				w.p->m_bdiag = bdiag; w.p->m_updThres = 1e-10;
+				for(std::size_t j = 0; j != m; ++j){ RealVector s(n); for(std::size_t k = 0; k != n; ++k) s(k) = bits2d(t[at++]); w.p->m_steps.push_back(s); }
+				for(std::size_t j = 0; j != m; ++j){ RealVector y(n); for(std::size_t k = 0; k != n; ++k) y(k) = bits2d(t[at++]); w.p->m_gradientDifferences.push_back(y); }
+				RealVector dir(n, 0.0);
+				w.p->getBoxConstrainedDirection(dir, l, u);
+				// the harness' own active set / projected gradient (definition of the class comment: a variable is blocked
+				// when it sits on (within 1e-13 of) a bound and -g points outward)
+				RealVector p0, bi, bp; std::vector<bool> blocked; bool pgzero;
+				bool touching = cauchyTouchesBound(*w.p, x, g, l, u, p0, blocked, pgzero, bi, bp);
+				out << "bd dir=" << showVec(dir) << " st=" << n << hexVec(dir) << hexVec(p0) << hexVec(bi) << hexVec(bp);
+				bool finite = true; bool zero = true; double gtd = 0;
+				for(std::size_t k = 0; k != n; ++k){ finite = finite && std::isfinite(dir(k)); zero = zero && dir(k) == 0; gtd += g(k) * dir(k); }
+				if(!finite) out << " !oracle boxdir-non-finite";
+				else{
+					for(std::size_t k = 0; k != n; ++k){
+						if(!(x(k) + dir(k) >= l(k) - 2e-13 && x(k) + dir(k) <= u(k) + 2e-13)){
+							out << " !oracle boxdir-infeasible" << (touching ? "-cauchy-point-touches-bound " : " ") << k; break;
+						}
+					}
+					for(std::size_t k = 0; k != n; ++k) if(blocked[k] && dir(k) != 0){ out << " !oracle boxdir-moves-blocked-coordinate " << k; break; }
+					if(pgzero && !zero) out << " !oracle boxdir-moves-at-stationary-point";
+					if(!pgzero && zero) out << " !oracle boxdir-zero-direction";
+					if(!pgzero && !zero && !(gtd < 0)) out << " !oracle boxdir-not-descent";
+				}
 			}else if(t[0] == "save"){
 				if(!cur) throw std::runtime_error("bad-op");
 				bool text = t.at(1) == "text", strict = t.at(2) == "strict";
@@ -339,6 +474,19 @@ int main(){
 			out.str(""); out << (w == "bad-op" ? "bad-op" : "exception");
 			for(char& ch: w) if(ch == '\n' || ch == '\r') ch = ' ';
 			if(w != "bad-op") out << " !oracle exception " << w.substr(0, 120);
+			if(w != "bad-op" && cur && f->boxed && !t.empty() && t[0] == "step"){
+				// where was the optimizer when it threw: exactly inside [l,u], or outside by less than the slack of isFeasible?
+				RealVector const& pt = cur->o().solution().point; bool inside = pt.size() == f->n;
+				for(std::size_t i = 0; inside && i != f->n; ++i) inside = pt(i) >= f->lo(i) && pt(i) <= f->hi(i);
+				out << (inside ? " [point-exactly-in-box]" : " [point-outside-by-slack]");
+				if(inside && cfg.kind == "lbfgs"){
+					WrapLBFGS* wl = static_cast<WrapLBFGS*>(cur.get());
+					RealVector p0, bi, bp, g; std::vector<bool> blocked; bool pgzero;
+					f->both(pt, &g);
+					out << (cauchyTouchesBound(*wl->p, pt, g, f->lo, f->hi, p0, blocked, pgzero, bi, bp) ? " [cauchy-point-touches-bound]" : " [no-touching]");
+					out << " state:" << cur->extra(false);   // the half-updated state, for replaying the direction computation
+				}
+			}
 		}
 		std::cout << out.str() << "\n";
 	}
